@@ -454,6 +454,49 @@ class ClassOp(Contract):
         yield self.kind, [a, b2], [is_cls(a.term, self.kind)]
 
 
+class Simplify(Contract):
+    """MultiMarker.union_simplify / MarkerUnion.intersect_simplify: None, or a marker that evaluates as the union / intersection of
+    self and other and mentions no new variable (the contract the of() loops assume at their call sites)"""
+
+    def __init__(self, th, kind):
+        self.th, self.kind = th, kind
+        self.target = (MM + "union_simplify") if kind == "MultiMarker" else (MU + "intersect_simplify")
+        self.comb = z3.Or if kind == "MultiMarker" else z3.And
+
+    def cases(self, th):
+        me, other = th.shape.fresh("self"), th.shape.fresh("other")
+        yield self.kind, [me, other], [is_cls(me.term, self.kind)]
+
+    def allowed_raise(self, ex, args, exc):
+        return z3.BoolVal(False)
+
+    def result(self, ex, args):
+        raise OutsideSubset("simplify contracts are used through the method contract at call sites")
+
+    def ensures(self, ex, args, result):
+        if result is None:
+            return [("C02.simplify.none-allowed", z3.BoolVal(True))]
+        if not isinstance(result, AbsObj):
+            return [("returns-marker-or-none", z3.BoolVal(False))]
+        a, o, r = args[0].term, args[1].term, result.term
+        return [("C02.simplify.ev", ev(r) == self.comb(ev(a), ev(o))), ("C12.simplify.uses", z3.Implies(uses(r), z3.Or(uses(a), uses(o))))]
+
+    def comp(self, st):
+        """common_markers = [m for m in self.markers if m in shared_markers]: exactly the members of self seen so far that are shared"""
+        acc = st.loc("__acc")
+        me = st.loc("self").term
+        K = AList(self.th.shape, kids(me), z3.IntVal(0), nkids(me))
+        S = st.loc("shared_markers").lst
+        k = st.k
+        c, i, j, q = (z3.Int(fresh_name(n)) for n in ("cc", "ci", "cj", "cq"))
+        mem_S = lambda x: z3.Exists([j], z3.And(0 <= j, j < S.n, eqm(at(S, j), x)))
+        return [("len", acc.n >= 0),
+                ("members-of-self-and-shared", z3.ForAll([c], z3.Implies(z3.And(0 <= c, c < acc.n),
+                                                                       z3.And(z3.Exists([i], z3.And(0 <= i, i < k, eqm(at(K, i), at(acc, c)))), mem_S(at(acc, c)))))),
+                ("all-shared-members-kept", z3.ForAll([i], z3.Implies(z3.And(0 <= i, i < k, mem_S(at(K, i))),
+                                                                    z3.Exists([q], z3.And(0 <= q, q < acc.n, eqm(at(acc, q), at(K, i)))))))]
+
+
 def c02_contracts(th):
     out = [NormalForm(th, "cnf"), NormalForm(th, "dnf"), Intersection(th), UnionFn(th)]
     for q, kind in (("dep_logic.markers.any:AnyMarker.", "AnyMarker"), ("dep_logic.markers.empty:EmptyMarker.", "EmptyMarker"), (MM, "MultiMarker"), (MU, "MarkerUnion")):
@@ -523,7 +566,7 @@ def c07_contracts(th):
 
 
 def all_contracts(th):
-    cs = [FlattenItems(th), Of(th, "MultiMarker"), Of(th, "MarkerUnion")] + c12_contracts(th) + c02_contracts(th) + c07_contracts(th)
+    cs = [FlattenItems(th), Of(th, "MultiMarker"), Of(th, "MarkerUnion"), Simplify(th, "MultiMarker"), Simplify(th, "MarkerUnion")] + c12_contracts(th) + c02_contracts(th) + c07_contracts(th)
     return {c.target: c for c in cs}
 
 
@@ -558,6 +601,9 @@ def loop_specs(th):
     specs[(U + "dnf", 3)] = (L, [LoopSpec({"__acc": L}, nf_d.comp)])
     specs[(U + "union", 1)] = (L, [LoopSpec({"__acc": L}, UnionFn.filt)])
     specs[(U + "union", 2)] = LoopSpec({"unnormalized": th.shape}, UnionFn.unwrap)
+    for kind in ("MultiMarker", "MarkerUnion"):
+        sc = Simplify(th, kind)
+        specs[(sc.target, 0)] = (L, [LoopSpec({"__acc": L}, sc.comp)])
     DL = ListS(th.dshape)
     sm, su = c07_contracts(th)
     specs[(sm.target, 0)] = LoopSpec({"elements": DL}, sm.inv)
